@@ -196,6 +196,14 @@ func ZZFollowerNewTerm(n, unsynced int) {
 		aerr := fc.append(&proto.Append{Term: T, Entry: &proto.LogEntry{Term: T, Offset: int64(n), Value: []byte{g.val[n]}}, CommitOffset: -1}, st)
 		vAssert("old-term-append-rejected", aerr != nil)
 		vAssert("log-does-not-grow", w.appends == before)
+		if n > 0 {
+			// a RE-SENT entry of the deposed leader (offset already in the log): no acknowledgement on behalf of the old term
+			acksBefore := len(st.acks)
+			st.noAckOracle = true
+			derr := fc.append(&proto.Append{Term: T, Entry: &proto.LogEntry{Term: T, Offset: 0, Value: []byte{g.val[0]}}, CommitOffset: -1}, st)
+			st.noAckOracle = false
+			vAssert("old-term-duplicate-refused-and-not-acknowledged", derr != nil && len(st.acks) == acksBefore)
+		}
 		_, terr := fc.Truncate(&proto.TruncateRequest{Term: T, HeadEntryId: &proto.EntryId{Term: T, Offset: 0}})
 		vAssert("old-term-truncate-rejected", terr != nil)
 		// the leader of the new term attaches the node (Truncate -> FOLLOWER): a late message of the deposed
